@@ -43,6 +43,21 @@ def terms(d):
     return out
 
 
+# building a combination must not change the meaning of its operands (a combination object may be reused in a second, narrower query)
+for (n1, a), (n2, b), (n3, c) in itertools.product(LEAVES[:4], repeat=3):
+    for op1, op2 in itertools.product("&|", repeat=2):
+        base = (a & b) if op1 == "&" else (a | b)
+        compiled = base.to_pyfunc()
+        before = [bool(base.test(v)) for v in VALUES]
+        narrow = (base & c) if op2 == "&" else (base | c)
+        negated = ~base
+        after = [bool(base.test(v)) for v in VALUES]
+        if before != after or [bool(compiled(v)) for v in VALUES] != before or [bool(base.to_pyfunc()(v)) for v in VALUES] != before:
+            fail(violation="combining a boolean expression changed the meaning of its operand", base="%s %s %s" % (n1, op1, n2), combined_with="%s %s" % (op2, n3),
+                 before=before, after=after)
+        want = [(x and bool(c.test(v))) if op2 == "&" else (x or bool(c.test(v))) for x, v in zip(before, VALUES)]
+        if [bool(narrow.test(v)) for v in VALUES] != want or [bool(negated.test(v)) for v in VALUES] != [not x for x in before]:
+            fail(violation="a combination built on a combination has the wrong meaning", base="%s %s %s" % (n1, op1, n2), combined_with="%s %s" % (op2, n3))
 nterms = 0
 for name, t in terms(D):
     f = t.to_pyfunc()
